@@ -4,7 +4,7 @@
    node is relabelled NotSample; the optimality and unary-chain theorems then hold for
    every tree, with no hypothesis about internal samples. *)
 From Coq Require Import List ZArith NArith Bool Lia Arith.
-From TskVerif Require Import Base.Common C20.Model C20.Spec C20.SetProofs C20.HartiganProofs
+From TskVerif Require Import Base.Common Gen.Generated C20.Model C20.Spec C20.SetProofs C20.HartiganProofs
   C20.AssignProofs C20.VisitProofs C20.PlaceProofs C20.TopProofs.
 Import ListNotations.
 
@@ -29,14 +29,6 @@ Proof. intros E. induction l; simpl; [reflexivity|]. rewrite E, IHl. reflexivity
 
 Lemma forallb_map {A B} (f : B -> bool) (h : A -> B) l : forallb f (map h l) = forallb (fun x => f (h x)) l.
 Proof. apply forallb_map_ext. reflexivity. Qed.
-
-Fixpoint demote (t : tree) : tree :=
-  match t with
-  | Node u o ch => Node u (match o with Missing => NotSample | _ => o end) (map demote ch)
-  end.
-
-Definition mm_rose_fixed (K : nat) (roots : list tree) (anc : option N) : option (N * list trans) :=
-  mm_rose K (map demote roots) anc.
 
 Lemma demote_node u o ch :
   demote (Node u o ch) = Node u (match o with Missing => NotSample | _ => o end) (map demote ch).
@@ -138,4 +130,43 @@ Proof.
   { induction t as [u o ch IH] using tree_ind'. intros s. rewrite demote_node, !paint_eq. f_equal.
     rewrite map_map. apply map_ext_in. rewrite Forall_forall in IH. intros c Hc. apply IH. exact Hc. }
   rewrite (map_ext _ (fun r => paint tr r a)) in R; [exact R | intros; apply P].
+Qed.
+
+(* ---- the variant the code under test has ---- *)
+Lemma mm_current_optimal_lemma K roots anc a tr :
+  (1 <= K <= 64)%nat -> forallb (obs_lt K) roots = true ->
+  (c20_missing_through_hartigan = true \/ forallb no_internal_missing roots = true) ->
+  match anc with Some x => (x < N.of_nat K)%N | None => True end ->
+  mm_model K roots anc = Some (a, tr) ->
+  (forall a' ls, match anc with Some x => a' = x | None => True end ->
+      consistent_list roots ls = true -> (length tr <= forest_changes a' ls)%nat) /\
+  (exists ls, consistent_list roots ls = true /\ forest_changes a ls = length tr).
+Proof.
+  unfold mm_model. intros HK HO HF HA H. destruct c20_missing_through_hartigan.
+  - apply (mm_fixed_optimal_lemma K roots anc a tr); assumption.
+  - destruct HF as [HF|HF]; [discriminate|]. apply (mm_optimal_lemma K roots anc a tr); assumption.
+Qed.
+
+Lemma mm_current_oldest_lemma K roots anc a tr :
+  (1 <= K <= 64)%nat -> forallb (obs_lt K) roots = true ->
+  (c20_missing_through_hartigan = true \/ forallb no_internal_missing roots = true) ->
+  match anc with Some x => (x < N.of_nat K)%N | None => True end ->
+  nodupb (forest_ids roots) = true ->
+  mm_model K roots anc = Some (a, tr) ->
+  forallb (unary_ok false tr) roots = true.
+Proof.
+  unfold mm_model. intros HK HO HF HA ND H. destruct c20_missing_through_hartigan.
+  - apply (mm_fixed_oldest_lemma K roots anc a tr); assumption.
+  - destruct HF as [HF|HF]; [discriminate|].
+    apply (mm_oldest_lemma K roots anc a tr false); try assumption. right. exact HF.
+Qed.
+
+Lemma mm_current_reproduces_lemma K roots anc a tr :
+  nodupb (forest_ids roots) = true ->
+  mm_model K roots anc = Some (a, tr) ->
+  consistent_list roots (map (fun r => paint tr r a) roots) = true.
+Proof.
+  unfold mm_model. intros ND H. destruct c20_missing_through_hartigan.
+  - apply (mm_fixed_reproduces_lemma K roots anc a tr); assumption.
+  - apply (mm_reproduces_lemma K roots anc a tr); assumption.
 Qed.
